@@ -352,6 +352,74 @@ def rule_alloc_grow(ck, facts):
     ck.require(R, commit is not None and not commit[1] and commit[0] == ("bin", "add", ("leaf", "ptr"), ("leaf", "size")), "commit|end", "the committed allocation pointer is not pointer + size on every path", f.where())
 
 
+def rule_value_aborts(ck, facts):
+    """run-time primitives (builtin machine functions, WASM host functions) that abort depending on argument *values*"""
+    from ..rules import panics
+    from ..rules.guards import Terms
+    R = "C03.value-aborts"
+    ck.rule(R, "a run-time primitive (VM builtin machine function, WASM host function) does not abort depending on the values it is given: a panic!/assert! in such a function is either in the default arm of a dispatch on a type tag (unreachable for type-checked programs) or reported; a panic guarded by a length / emptiness / parse-result test is a crash of an accepted program for some input")
+    lang = facts.crate(roles.LANG)
+    n = 0
+    for f in lang.fns:
+        if f.kind == "promoted" or "::test" in f.path:
+            continue
+        if not ("::plugin::builtin_functins::" in f.path or "runtime::wasm" in f.path):
+            continue
+        sites = [x for x in panics.sites_in(f) if x.cls in ("panic", "assert") and x.macro not in ("debug_assert", "debug_assert_eq", "debug_assert_ne")]
+        if not sites:
+            continue
+        T = Terms(f)
+        dom = dominators(f)
+        for site in sites:
+            blk = None
+            for b, t in f.calls():
+                if t is site.term:
+                    blk = b
+            if blk is None:
+                continue
+            n += 1
+            # nearest dominating branches and what they test.  Value-dependent = the tested quantity is the length
+            # of a heap object fetched from run-time storage (not of the argument list), or the outcome of indexing /
+            # parsing a run-time string
+            ds = sorted((d for d in dom.get(blk, ()) if d != blk and f.term(d)[KIND] == "switch"), key=lambda d: -len(dom[d]))
+            kind = "invariant"
+            argc = f.d.get("argc", 0)
+
+            def heap_len(c, depth=0):
+                if not isinstance(c, tuple) or depth > 12:
+                    return False
+                if c and c[0] in ("len", "call_is_empty"):
+                    x = c[1]
+                    if not (isinstance(x, tuple) and x and x[0] == "loc" and 1 <= x[1] <= argc):
+                        return True
+                if c and c[0] == "call" and len(c) > 2 and c[2] in ("get_length_array",):
+                    return True
+                return any(heap_len(y, depth + 1) for y in c if isinstance(y, tuple))
+
+            for d in ds[:3]:
+                op = f.term(d)[4]
+                if op[0] not in ("cp", "mv"):
+                    continue
+                c = T.op(op)
+                if heap_len(c):
+                    kind = "length of a run-time object"
+                    break
+                r = T.di.resolve(op)
+                if r[0] == "rv" and r[1][5][0] == "disc" and (r[1][5][2].startswith("std::option::Option") or r[1][5][2].startswith("std::result::Result")):
+                    src = T.di.resolve(["cp", [r[1][5][1][0], []]])
+                    if src[0] == "call" and (callee(src[1]) or "").split("::")[-1] in ("nth", "parse", "from_str", "char_indices", "find"):
+                        kind = "string index / parse result"
+                        break
+            root = f.root.split("::", 1)[1]
+            slug = panics.norm_snip(site.snippet)[:50]
+            key = "abort|%s|%s|%s" % (root, kind, slug)
+            if kind == "invariant":
+                ck.ok(R, "site|%s|%s" % (root, slug))
+            else:
+                ck.bad(R, key, "%s aborts the process (%s: `%s`) under a %s test of its run-time arguments: a type-checked program that passes such a value crashes the audio process instead of getting a value or a diagnostic" % (f.short, site.macro, slug, kind), site.where())
+    ck.floor(R, "abort_sites_in_runtime_primitives", n, 40)
+
+
 def load_admission():
     import os
     import tomllib
@@ -411,6 +479,7 @@ def run(ck, facts, tier):
     rule_limits(ck, facts)
     rule_admission(ck, facts)
     rule_alloc_grow(ck, facts)
+    rule_value_aborts(ck, facts)
     guards.run(ck, facts, "C03.guarded-index", ["mimium_lang", "state_tree", "mimium_scheduler", "mimium_audiodriver"])
     c03_unsafe.run(ck, facts, cg, tier)
     ck.not_decided("absence of index/overflow/division panics (compiler-inserted asserts are counted in the evidence only)")
